@@ -12,6 +12,7 @@ for M in "$@"; do
   log=$OUT/$id.log
   echo "=== $id" > $log
   WT=/tmp/wt_eval_$id
+  if [ -z "$SKIP_CONFIRM" ]; then
   rm -rf $WT; git -C /repo worktree add --detach $WT HEAD -q
   ( cd $WT
     if [ -f $M/demo_devdep.Cargo.toml.diff ]; then git apply $M/demo_devdep.Cargo.toml.diff 2>>$log || sed -i 's/^special = "0.11.0"/special = "0.11.0"\nserde_json = { version = "1", features = ["float_roundtrip"] }/' Cargo.toml; fi
@@ -26,11 +27,14 @@ for M in "$@"; do
     grep -E "^test result" $OUT/$id.suite.txt >> $log
   )
   git -C /repo worktree remove --force $WT; rm -f /tmp/demo_*.rs.keep
+  fi
   # (2) my checks against the mutated /repo
   git -C /repo apply $patch 2>>$log || { echo "APPLY-TO-REPO-FAILED" >> $log; continue; }
-  for chk in $(cat $M/checks.txt 2>/dev/null || echo $prop); do
-    ( cd /verif && timeout 1500 ./check $chk quick > $OUT/$id.check_$chk.txt 2>&1; echo "check_${chk}_exit=$?" >> $log )
-    grep -m2 "^VIOLATION" $OUT/$id.check_$chk.txt | cut -c1-400 >> $log
+  for chk0 in $(cat $M/checks.txt 2>/dev/null || echo $prop); do
+    chk=${chk0%%:*}; tier=quick; tag=$chk
+    if [ "$chk0" != "$chk" ]; then tier=${chk0#*:}; tag=${chk}_$tier; fi
+    ( cd /verif && timeout 3000 ./check $chk $tier > $OUT/$id.check_$tag.txt 2>&1; echo "check_${tag}_exit=$?" >> $log )
+    grep -m2 "^VIOLATION" $OUT/$id.check_$tag.txt | cut -c1-400 >> $log
   done
   git -C /repo checkout -- .
 done
